@@ -80,10 +80,7 @@ def run(ctx):
     exe = vlib.build(ctx)
     vlib.tlc_mc(ctx, 'MC_Process', 'MC_Process' if ctx.quick else 'MC_Process_big', workers=12)
     # ---- inputs with several offenders of one kind (Plan_Multi.tla), enumerated by TLC and forged onto corpus templates
-    rec, pout = vlib.tlc_mc(ctx, 'Plan_Multi', 'Plan_Multi' if ctx.quick else 'Plan_Multi_big', workers=1)
-    plan = ctx.path('multi.out')
-    open(plan, 'w').write(pout)
-    vlib.GOENV['VERIF_MULTI'] = plan
+    histcommon.plan_multi(ctx)
     # ---- determinism / history independence / read-only: several processes, merged per object
     files = []
     s = None
